@@ -100,6 +100,7 @@ def prop_C11(run):
     rules_tab.bit_source(run)
     import rules_mpt
     rules_mpt.get_blocks_rules(run)
+    rules_mpt.write_rules(run)
     rules_tab.tab_cli_groups(run)               # what is formatted is what gets written, for every group that names a file
     # bit positions, output byte counts and addresses in address units never meet in one value
     nc, ns = rules_unit.unit(run, scope_files=list(rules_unit.LAYOUT_FILES), layout=True)
@@ -172,6 +173,7 @@ def prop_C09(run):
     rules_fix.fix2(run)
     import rules_idx
     rules_idx.sk_instruction_flag(run)
+    rules_idx.static_known(run)
     rules_fix.fix3(run)
     rules_fix.fix4(run)
     pc = run.anchor("FIX4", "driver::parse_command")
